@@ -416,7 +416,8 @@ def correspondence(run):
         dist[f"size{p.size}:{kind}"] += 1
         nz += nontrivial(p)
     failing, shard_fail, nsh = cg.run()
-    run.oblige(f"correspondence:gen ({nsh} shards, {len(cg)} positions)", not shard_fail, str(shard_fail)[:1500])
+    run.oblige(f"correspondence:gen ({nsh} shards, {len(cg)} positions)", not shard_fail and not failing,
+               (str(shard_fail)[:1500] if shard_fail else f"{len(failing)} positions where all_moves() differs from the model's list"))
     run.count(len(cg), nz, "all_moves() of each position compared with the model's list, order included; distinct by position hash; "
               "non-trivial = past the opening and the mover controls a stack of height >= 2",
               [{"position": takio.j_pos(ps[len(ps) // 2][0]), "all_moves": len(ps[len(ps) // 2][0].all_moves())}],
@@ -472,7 +473,8 @@ def correspondence(run):
             sample.append({"position": takio.j_pos(p), "generated": st["generated"], "legal": st["legal"],
                            "universe": len(wfm), "illformed_tried": len(ill)})
     failing2, shard_fail2, nsh2 = cl.run()
-    run.oblige(f"correspondence:legal ({nsh2} shards, {len(cl)} positions)", not shard_fail2, str(shard_fail2)[:1500])
+    run.oblige(f"correspondence:legal ({nsh2} shards, {len(cl)} positions)", not shard_fail2 and not failing2,
+               (str(shard_fail2)[:1500] if shard_fail2 else f"{len(failing2)} positions whose accepted set differs from the model's legal set"))
     run.oblige("oracle: every accepted canonical move is generated once, is well-formed and (sizes 3-6) a table entry; "
                "generated moves are table entries; only IllegalMove is raised", not reported, str(dict(reported)))
     run.count(evals, nzl, "legal set by trying move() over the whole move universe of the size (own enumerator; + MOVES_BY_SIZE on 3-6) "
@@ -555,18 +557,37 @@ def search(run, broken):
 
 
 def replay(run, rp):
+    """re-run the stored (position, move) on the current tree (oracle) and on the model (one case in Coq)"""
     core.setup_impl()
     p = takio.mk_pos(rp["position"])
     n = p.size
     if rp.get("move") is None:
         hits, *_ = oracle(p, _wf_moves(n), illformed(run.rng, p, 80), _table_set(n))
-        return {"violates": bool(hits), "hits": [(c, None if m is None else takio.j_move(m), d) for c, m, d in hits[:10]]}
+        ms = _safe(p.all_moves)
+        agrees = None
+        if isinstance(ms, list):
+            cg = core.Cases(ID, "replaygen", HEADER, "position * list mv",
+                            "fun c => list_eqb mv_eqb (all_moves (fst c)) (snd c)")
+            cg.add(f"({takio.c_pos(p)}, {clist([takio.c_move(m) for m in ms])})", {})
+            failing, shard_fail, _ = cg.run()
+            agrees = not failing and not shard_fail
+        return {"violates": bool(hits) or agrees is not True, "all_moves_list_equals_model": agrees,
+                "hits": [(c, None if m is None else takio.j_move(m), d) for c, m, d in hits[:10]]}
     m = takio.mk_move(rp["move"])
     wf = [m] if is_wf(n, m) else []
     ill = [] if wf else [m]
     hits, accepted, ill_out, st = oracle(p, wf, ill, _table_set(n))
     hits = [h for h in hits if h[1] is None or h[1] == m]
-    return {"violates": bool(hits), "move": takio.j_move(m), "outcome": try_move(p, m),
+    out = try_move(p, m)
+    agrees = None
+    if not out.startswith("crash"):
+        cs = core.Cases(ID, "replaymove", HEADER, "position * mv * bool",
+                        "fun c => let '(p, m, b) := c in Bool.eqb (acc p m) b")
+        cs.add(f"({takio.c_pos(p)}, {takio.c_move(m)}, {cbool(out == 'ok')})", {})
+        failing, shard_fail, _ = cs.run()
+        agrees = not failing and not shard_fail
+    return {"violates": bool(hits) or agrees is False, "move": takio.j_move(m), "outcome": out,
+            "model_agrees_on_acceptance": agrees,
             "times_in_all_moves": _safe(lambda: collections.Counter(p.all_moves())[m]),
             "in_table": (None if _table_set(n) is None else m in _table_set(n)),
             "hits": [(c, takio.j_move(mm) if mm is not None else None, d) for c, mm, d in hits[:10]]}
